@@ -5,7 +5,7 @@ CONSTANTS
   Signs = {TRUE, FALSE}
   WideSame = {TRUE}
   SStarts = {0, 7, 10}
-  SLens = {0, 2, 5}
+  SLens = {2, 5}
   NWs = {1, 2, 3}
   ChunkSizes = {1, 2}
   SGrans = {1, 2}
